@@ -118,6 +118,13 @@ pub struct Interp {
     pub sites: usize,
     /// names of variables whose match failed mid-chain (use of their binders is unspecified)
     pub trace: Vec<&'static str>,
+    /// Dynamic facts about this evaluation, used to decide whether a disagreement can be
+    /// attributed to a known language-level defect: "midchain" (the verdict of an in-chain match
+    /// was consumed by a later term or binding), "nil-accepted" (a nil value was matched by a
+    /// pattern that accepts nil: bare binder, `_`, `[]`), "tail" (a tail call was executed),
+    /// "generic" / "partial-param" (a generic function / a function with a partial-typed
+    /// parameter was applied).
+    pub events: std::collections::BTreeSet<&'static str>,
 }
 
 fn is_nil_type(t: &ast::Type) -> bool {
@@ -132,6 +139,7 @@ impl Interp {
             depth: 0,
             sites: 0,
             trace: vec![],
+            events: Default::default(),
         }
     }
 
@@ -200,7 +208,10 @@ impl Interp {
     fn chain(&mut self, chain: &ast::Chain, input: V, env: &mut Env) -> R<V> {
         self.tick()?;
         let mut cur = input;
-        for t in &chain.terms {
+        for (i, t) in chain.terms.iter().enumerate() {
+            if matches!(t, Term::Match(_)) && (i + 1 < chain.terms.len() || chain.match_pattern.is_some()) {
+                self.events.insert("midchain");
+            }
             cur = self.term(t, cur, env)?;
         }
         if let Some(p) = &chain.match_pattern {
@@ -212,6 +223,13 @@ impl Interp {
     fn do_match(&mut self, p: &Match, v: &V, env: &mut Env) -> R<V> {
         if matches!(v, V::Absent) {
             return abstain("input of the program's first step");
+        }
+        // A nil value reaching a pattern that accepts it; the nil test `=[]` counts whatever it
+        // is applied to, because the compiler's wrong narrowing after it also mis-types the
+        // branch guard that non-nil arguments are dispatched on.
+        let nil_test = matches!(p, Match::Tuple(t) if t.name.is_none() && t.fields.is_empty());
+        if nil_test || (is_nil(v) && matches!(p, Match::Identifier(..) | Match::Placeholder)) {
+            self.events.insert("nil-accepted");
         }
         let mut binds: Vec<(String, V)> = vec![];
         if self.pattern(p, v, env, &mut binds)? {
@@ -328,6 +346,10 @@ impl Interp {
         };
         if !c.func.type_parameters.is_empty() {
             // generic functions behave like ordinary ones at run time
+            self.events.insert("generic");
+        }
+        if matches!(&c.func.parameter_type, Some(ast::Type::Tuple(tt)) if tt.is_partial) {
+            self.events.insert("partial-param");
         }
         let mut env = c.env.clone();
         env.param = Some(arg.clone());
@@ -477,6 +499,7 @@ impl Interp {
                 }
             }
             Some(AccessSource::TailCall(target)) => {
+                self.events.insert("tail");
                 let callee = match target {
                     None => {
                         if !a.accessors.is_empty() {
@@ -503,6 +526,7 @@ impl Interp {
                 Err(Stop::Return(v))
             }
             Some(AccessSource::TailCallRipple) => {
+                self.events.insert("tail");
                 if env.current.is_none() {
                     return abstain("tail call outside a function");
                 }
@@ -792,4 +816,14 @@ pub fn evaluate(source: &str, budget: usize) -> Result<String, Stop> {
     let ast = quiver_compiler::parse(source).map_err(|_| Stop::Abstain("parse error".into()))?;
     let mut i = Interp::new(budget);
     i.program(&ast).map(|v| render(&v))
+}
+
+/// Like [`evaluate`], also returning the dynamic events of the evaluation (see `Interp::events`).
+pub fn evaluate_events(source: &str, budget: usize) -> (Result<String, Stop>, std::collections::BTreeSet<&'static str>) {
+    let Ok(ast) = quiver_compiler::parse(source) else {
+        return (Err(Stop::Abstain("parse error".into())), Default::default());
+    };
+    let mut i = Interp::new(budget);
+    let r = i.program(&ast).map(|v| render(&v));
+    (r, i.events)
 }
